@@ -1,5 +1,7 @@
 (* C08 — commit releases exactly the unused part of the pre-authorisation.  Statements only. *)
-From Zvt Require Import Base Length Cp437 Encoding Codec Lookup Client ClientProps.
+From Zvt Require Import Base Length Cp437 Encoding Codec Lookup Client ClientProps SpecCheck.
+From Zvt.gen Require Tables.
+From Zvt.spec Require Spec.
 Open Scope N_scope.
 
 (* the released amount (saturating_sub in the code, truncated subtraction in N): exactly pre - min(pre, final),
@@ -20,9 +22,16 @@ Theorem C08_commit_abort_reported : forall ixa ixs acc c rest,
   fst (h_commit ixa ixs acc ixa (VRec (VInt c :: rest))) = Some (RErr (EAborted c)).
 Proof. exact abort_commit. Qed.
 
+(* the constants of the client regenerated from /repo (payment type 0x40, "AC", config byte 0xDE, 60 s,
+   20 attempts, 2 s, currency codes) equal the specification's *)
+Theorem C08_client_constants_agree_with_spec :
+  forallb const_ok Spec.client_constants && forallb str_const_ok Spec.client_str_constants && paths_eqb Tables.currencies Spec.currencies_iso4217 = true.
+Proof. exact client_constants_agree_with_spec. Qed.
+
 Example C08_ex : (2500 - 1000 = 1500) /\ (2500 - 2501 = 0) /\ (2500 - 18446744073709551615 = 0) /\ (0 - 0 = 0).
 Proof. repeat split. Qed.
 
 Print Assumptions C08_commit_amount.
 Print Assumptions C08_summary_from_last_status.
 Print Assumptions C08_commit_abort_reported.
+Print Assumptions C08_client_constants_agree_with_spec.
